@@ -39,6 +39,10 @@ CHECKS = {
          "Seeded search over command sequences: every packet the nine drivers write is parsed by an independent table-driven referee of that gateway's wire format and compared with the command's frame and flags (field alignment, length/mode code, send-twice flag or double write, LUBA priority, padding, checksums, sequence numbers in range without immediate repetition over > 600 consecutive sends), frames of unsupported length must be refused before any byte is written, and every status/type code is fed to the blocking drivers' receive functions. The asyncio drivers run on the virtual loop, partly with two concurrent callers.",
          "Trusted base: the referees' transcription of the protocol notes quoted in the drivers (DESIGN.md 2.5 / C18); SCI transmit layout of the pinned tree assumed correct; vendor documents not available offline.",
          "deterministic simulation (wire referees in the gateway models; seeded command histories incl. sequence-number wrap)", "4"),
+ "C19": ("rxsim", "exploration",
+         "Seeded search over byte streams and chunkings: grammar-guided LUBA and SCI streams (valid frames of every type, every value of the length byte, corrupted checksums, truncated frames, noise with embedded start bytes) with injected line faults (bit flips, dropped / duplicated / inserted bytes) are delivered to fresh real protocol objects under four chunkings; queue contents (answers, confirmations, info/settings, observed commands with their device-type context) must equal the items of an independent reference deframer for every chunking, no exception may leave data_received, and a well-formed probe frame after the stream must still be accepted.",
+         "Trusted base: the reference grammar of DESIGN.md C19 (sim/refs/deframers.py); streams containing checksum-valid frames malformed for their type are set aside as the property prescribes.",
+         "deterministic simulation of a faulty serial line (seeded streams, line faults, re-chunking) against a reference deframer", "4"),
 }
 
 PLANNED = {}
